@@ -86,7 +86,7 @@ def det_runs(tier, seed):
 PROPS = {
     "C06": {
         "runs": det_runs, "replay_runs": replay_runs, "monitor": (lambda rec: []), "model": False, "facts": facts.gen_nondet_facts,
-        "replicas": [{"GOMAXPROCS": "1", "TZ": "America/New_York"}, {"GOMAXPROCS": "16", "GOGC": "20", "TZ": "Australia/Lord_Howe"}],
+        "replicas": [{"GOMAXPROCS": "1", "TZ": "America/New_York"}, {"GOMAXPROCS": "16", "GOGC": "20", "TZ": "Australia/Lord_Howe", "VERIF_NODE_RESTART": "1"}],
         "diff_relevant": lambda d: False,
         "trusted_base": BASE_TRUST + ["the nondeterminism-site scanner (verif/scan, go/types based: range over map-typed expressions, time.Now/Since, rand packages, go, select) over x/*, wasmbinding, types",
                                       "the two/three-process replay uses real signed transactions through DeliverTx and compares code, gas, ordered events and AppHash"],
